@@ -60,11 +60,11 @@ META = {
                     "the model's forwardItem is defined as validate-lift-call",
                     "chunk_invariant / cov theorems: initial rotation and every increment Exp(w dt) are unit quaternions "
                     "(exact for |w dt| > eps and for w dt = 0; see partial)"],
-    "partial": ["chunk invariance of vel/pos for NON-unit increments (Taylor band 0 < |w dt| <= eps of so3 Exp): proved exactly up to "
-                "an explicit defect and bounded by (3 eta + 3 eta^2) * sum |dt| |a|, eta = (1+eps^6)^(frames) - 1, for ONE cut "
-                "(chunk_two_every_stream); for several cuts the exact theorem needs unit increments (chunk_invariant) — rot, cov, "
-                "Rij need no hypothesis (chunk_invariant_rot_cov); the band is also covered by the 192-bit correspondence + the "
-                "chunk oracle on the real code (gyro mode 'taylor')",
+    "partial": ["chunk invariance of vel/pos for NON-unit increments (Taylor band 0 < |w dt| <= eps of so3 Exp) is proved as a BOUND, "
+                "not an equality: exact up to an explicit defect, |dvel| <= K*(#chunks)*sum|dt||a|, |dpos| <= K*(#chunks)*(double sum), "
+                "K = 3 eta + 3 eta^2, eta = (1+eps^6)^(frames) - 1, for any number of cuts (chunk_list_every_stream; one cut: "
+                "chunk_two_every_stream); exact equality needs unit increments (chunk_invariant); rot, cov, Rij are exactly "
+                "chunk-invariant without hypothesis (chunk_invariant_rot_cov)",
                 "float round-off: theorems are over the reals; agreement of the float code with the exact model is measured "
                 "at 64*eps*(frames+2)*scale (covariance: 8x that + 16*sqrt(eps) for the cancellation inside so3 Jr)"],
 }
@@ -134,6 +134,8 @@ def gen_theta(r: random.Random, mode: str, eps: float) -> float:
         if mode == "pi_exact":
             ds = ds + [0.0, 0.0]
         return base * (1 + r.choice([-1, 1]) * r.choice(ds))
+    if mode == "eps_tie":   # (38c) |w dt| EXACTLY eps, eps/2, 2 eps, 4 eps (axis aligned, power-of-two dt: no rounding anywhere)
+        return r.choice([eps, eps, eps / 2, 2 * eps, 4 * eps])
     if mode == "near_id":   # (36) rotation per step nearly the identity: quaternion within 1e-8 .. 1e-5 of (0,0,0,1)
         return r.choice([3e-8, 1e-7, 1e-6, 1e-5, 4e-5])
     if mode == "quarter":   # (20) exact quarter / half / full turns per step (|v| = |w|, w = 0, v = 0 up to the last bit)
@@ -205,10 +207,10 @@ def build_data(case) -> dict:
             dts.append(d)
             th = gen_theta(r, gm, eps)
             dirv = common.rand_dir(r, 3)
-            if gm in ("quarter", "quarter_nopi"):
+            if gm in ("quarter", "quarter_nopi", "eps_tie"):
                 d = r.choice([0.5, 0.25, 1.0]) if d > 0 else d      # power-of-two dt: gyro*dt is the exact float multiple of pi
                 dts[-1] = d
-                if r.random() < 0.6:
+                if gm == "eps_tie" or r.random() < 0.6:
                     dirv = [0.0, 0.0, 0.0]
                     dirv[r.randrange(3)] = r.choice([-1.0, 1.0])
             gy.append([(th / d if d != 0 else th) * x for x in dirv])
@@ -495,6 +497,13 @@ def check_attrs(m, before, o, reset, prop_cov):
 
 
 def record(o):
+    """float64 copies of what a call returned; a NaN / inf in a result for finite valid inputs is a failure by itself
+    (tested before any comparison or model call: NaN compares false with everything)"""
+    for key in ("rot", "vel", "pos", "cov"):
+        if o.get(key) is not None and not bool(torch.isfinite(raw_storage(o[key])).all()):
+            bad = raw_storage(o[key])
+            n_bad = int((~torch.isfinite(bad)).sum())
+            raise Misbehaviour(f"nonfinite: forward returned {n_bad} NaN/inf entries in '{key}' (shape {tuple(bad.shape)}) for finite valid inputs")
     return {"raw": o, "rot": plain(o["rot"]).double(), "vel": plain(o["vel"]).double(), "pos": plain(o["pos"]).double(),
             "cov": None if o.get("cov") is None else plain(o["cov"]).double(),
             "types": (type(o["rot"]).__name__, str(o["rot"].dtype), tuple(o["rot"].shape), tuple(o["vel"].shape),
@@ -677,9 +686,9 @@ def run_impl(case, D, chunks=None, rank=None, disturb=False, grad_mode=None, hoo
             for key in ps:
                 if not torch.equal(plain(po[key]), ps[key]):
                     raise Misbehaviour(f"purity: a later call modified the previously returned '{key}'")
+        rec = record(o)                     # raises on a non-finite result, before anything is compared
         check_attrs(m, before, o, case["reset"], case["prop_cov"])
         check_owns(m, o, guards, f"(call {ci})")
-        rec = record(o)
         outs.append(rec)
         if disturb:
             for x in guards:
@@ -1719,6 +1728,10 @@ def run_integrate(ctx: Ctx, cases):
             st = m.integrate(D["dt"].clone(), D["gyro"].clone(), D["acc"].clone(),
                              rot=P.SO3(D["rot"].clone()) if known else None, init_rot=R0)
             got = {k: plain(st[k]).double() for k in ("Dr", "Dv", "Dp", "Dt", "a")}
+            nf = [k for k, v in got.items() if not bool(torch.isfinite(v).all())]
+            if nf:
+                ctx.fail({**c1, "oracle": "nonfinite"}, f"nonfinite: integrate returned NaN/inf in {nf} for finite valid inputs")
+                continue
             shapes = {k: tuple(v.shape) for k, v in got.items()}
             want = {"Dr": (B, F, 4), "Dv": (B, F, 3), "Dp": (B, F, 3), "Dt": (B, F, 1), "a": (B, F, 3)}
             if shapes != want:
@@ -1842,7 +1855,7 @@ def run_reuse_history(ctx: Ctx, subs, record_case=True):
 
 # ----------------------------------------------------------------------------- case generation
 
-GYRO_MODES = ["mix", "mix", "mix", "moderate", "moderate", "moderate", "small", "small", "taylor", "taylor", "large", "large", "zero", "zero", "huge", "pi", "quarter", "near_id"]
+GYRO_MODES = ["mix", "mix", "mix", "moderate", "moderate", "moderate", "small", "small", "taylor", "taylor", "large", "large", "zero", "zero", "huge", "pi", "quarter", "near_id", "eps_tie"]
 ACC_MODES = ["mix", "mix", "mix", "unit", "unit", "grav", "grav", "big", "big", "zero", "zero", "huge", "tiny", "near_grav"]
 
 
@@ -1871,6 +1884,8 @@ def base_case(rng: random.Random, stream: str, chunks, B=None, rank=3, dtype=Non
     case.update(over)
     if "gravity_int" not in over and float(case["gravity"]).is_integer() and rng.random() < 0.5:
         case["gravity_int"] = True                      # 0, 10, -10, 274 … written as python ints
+    if case["dt_mode"] == "signed" and case.get("bare"):
+        case["dt_mode"] = "vary"
     if case["dt_mode"] == "signed":                     # (26) dt < 0 / dt = 0 frames: no covariance (it divides by dt)
         case["prop_cov"], case["reset"] = False, True
     if case["layout"] == "alias" and case["acc_mode"] in ("zero", "big", "huge") and "gyro_mode" not in over:
@@ -2030,7 +2045,7 @@ def corner_corpus():
     # ---- round-5 classes
     # (29) objects built with every optional argument omitted, against the DOCUMENTED defaults (model), also chunked
     for parts in ([3], [2, 2], [1, 1, 3]):
-        add(parts, B=len(parts), dtype="float32", bare=True, init_mode="default", cov_mode="default", gravity=STD_G, gravity_int=False,
+        add(parts, B=len(parts), dtype="float32", bare=True, init_mode="default", cov_mode="default", gravity=STD_G, gravity_int=False, dt_mode="vary",
             reset=False, prop_cov=True, ctor_positional=False, subclass=False, known_rot=[len(parts) == 2], gyro_mode="moderate",
             acc_mode="grav")
     # (30) every float dtype accepted after .to(dtype); integer time steps
@@ -2052,6 +2067,12 @@ def corner_corpus():
         add([2, 3], B=2, dt_mode="const", gyro_mode="near_id", acc_mode="near_grav", gravity=STD_G, dtype=dtp, known_rot=[False],
             init_mode="default")
         add([4], B=1, dt_mode="near_const", gyro_mode="near_id", acc_mode="near_grav", gravity=STD_G, dtype=dtp, known_rot=[True])
+    # ---- pass 7 (38c): exact ties of the floating branch selections on the integrator's path, exactly representable:
+    #      |w dt| == eps (so3 Exp / Jr masks), dt == 0 (covered by `signed`), quarter / half turns (Log masks, covered above)
+    for dtp in ("float64", "float32"):
+        add([4], B=2, gyro_mode="eps_tie", acc_mode="unit", dt_mode="const", dtype=dtp, known_rot=[False], gravity=STD_G)
+        add([2, 2], B=1, gyro_mode="eps_tie", acc_mode="grav", dt_mode="const", dtype=dtp, known_rot=[True], gravity=-STD_G,
+            cov_mode="vec")
     # (25) process-wide default dtype
     for c in cs[2::7]:
         if sum(c["chunks"]) <= 40:
@@ -2070,7 +2091,7 @@ def corpus_interleave():
     rng = random.Random(20260926_16)
     mk = lambda parts, **kw: base_case(rng, "interleave", parts, **{"gyro_mode": "moderate", "acc_mode": "unit", "gravity": STD_G,
                                                                     "layout": "contig", **kw})
-    bare = lambda parts, B: mk(parts, B=B, dtype="float32", bare=True, init_mode="default", cov_mode="default", gravity=STD_G,
+    bare = lambda parts, B: mk(parts, B=B, dtype="float32", bare=True, init_mode="default", cov_mode="default", gravity=STD_G, dt_mode="vary",
                                gravity_int=False, reset=False, prop_cov=True, positional=False, ctor_positional=False, subclass=False)
     return [[bare([2, 1, 2], 1), bare([1, 3], 2), bare([2, 2], 1)],          # (29) three objects built with NO argument at all
             [mk([2, 1, 3], B=2, dtype="float64"), mk([1, 2, 2], B=1, dtype="float32"), mk([3, 3], B=3, dtype="float64", reset=True)],
